@@ -60,6 +60,10 @@ Definition spec_map (nc nr : nat) (o : top) : option (nat -> nat -> source) :=
   | OFlipCols => Some (fun c r => FromCell (nc - 1 - c) r)
   | OSort _ _ _ => None    (* decided relationally, below *)
   | OSortFuse _ _ _ _ _ => None
+  | OCloneFuse td sc sr cells _ =>
+      if (if td then (nc =? sc) && (nr =? sr) else (nc * nr =? length cells)) then
+        Some (fun c r => match nth_error cells (r * nc + c) with Some x => Value x | None => FromCell c r end)
+      else None
   | OSetCell c r x | OSetRowCell c r x =>
       if okc c && okr r then
         Some (fun c' r' => if (c' =? N.to_nat c) && (r' =? N.to_nat r) then Value x else FromCell c' r')
@@ -215,6 +219,29 @@ Definition oracle_ops (inp obs : list N) : bool :=
                         (ok =? 1)%N && outside_unchanged (oc_C c) q old new
                         && sort_ok (oc_C c) q var (N.to_nat line) old new
                       else (ok =? 0)%N && list_N_eqb new old
+                  | None => false
+                  end
+              | [] => false
+              end
+          | OCloneFuse td sc sr cells kf =>
+              (* obs: outcome, buffer, double drops, leaked elements *)
+              match obs with
+              | ok :: rest =>
+                  match run_parser (nw <~ p_list p_N ;; d <~ p_N ;; l <~ p_N ;; p_ret (nw, d, l)) rest with
+                  | Some (new, dbl, leaked) =>
+                      match spec_map nc nr (OCloneFuse td sc sr cells kf) with
+                      | None => (ok =? 0)%N && list_N_eqb new old && (dbl =? 0)%N && (leaked =? 0)%N
+                      | Some f =>
+                          if (kf <? N.of_nat (nc * nr))%N then
+                            (* C11: the k-th Clone panicked: every cell holds an element that was in
+                               the array or was supplied, nothing outside the receiver moved,
+                               nothing is dropped twice; elements may be leaked *)
+                            (ok =? 0)%N && outside_unchanged (oc_C c) q old new
+                            && forallb (fun x => existsb (N.eqb x) (old ++ cells)) new && (dbl =? 0)%N
+                          else
+                            (ok =? 1)%N && list_N_eqb new (expected_buf (oc_C c) q f old)
+                            && (dbl =? 0)%N && (leaked =? 0)%N
+                      end
                   | None => false
                   end
               | [] => false
